@@ -2,6 +2,7 @@ package main
 
 import (
 	"fmt"
+	"go/constant"
 	"go/types"
 	"strings"
 
@@ -143,6 +144,13 @@ func (ex *Exec) callFunc(st *State, frID int, instr ssa.Instruction, fn *ssa.Fun
 				k(st, ex.freshResults(st, fn.Signature.Results(), "res:Read"))
 				return
 			}
+		}
+	}
+	if key == "fmt.Sprintf" && cc != nil && len(cc.Args) == 2 {
+		if t, ok := ex.sprintfConcat(st, frID, cc); ok {
+			ex.externs["fmt.Sprintf (formats made of literal text and %s verbs over strings: the concatenation)"] = true
+			k(st, []Val{t})
+			return
 		}
 	}
 	if key == "sort.Search" && len(args) == 2 {
@@ -663,4 +671,108 @@ func (ex *Exec) sortSearch(st *State, frID int, n Term, c *ClosureV) Term {
 		st.Assume(Term{fmt.Sprintf("(forall ((%s Int)) (=> (and (<= 0 %s) (< %s %s)) (not %s)))", kname, kname, kname, r.S, tk.S), SBool})
 	}
 	return r
+}
+
+// sprintfConcat models fmt.Sprintf for a constant format that consists of literal text and %s
+// verbs whose arguments are strings or byte slices: the result is the concatenation. The
+// variadic arguments are recovered from the SSA shape (stores of MakeInterface values into the
+// argument array); anything else is left to the generic (unconstrained) treatment.
+func (ex *Exec) sprintfConcat(st *State, frID int, cc *ssa.CallCommon) (Term, bool) {
+	fc, ok := cc.Args[0].(*ssa.Const)
+	if !ok || fc.Value == nil || fc.Value.Kind() != constant.String {
+		return Term{}, false
+	}
+	format := constant.StringVal(fc.Value)
+	sl, ok := cc.Args[1].(*ssa.Slice)
+	if !ok {
+		return Term{}, false
+	}
+	al, ok := sl.X.(*ssa.Alloc)
+	if !ok || al.Referrers() == nil {
+		return Term{}, false
+	}
+	argv := map[int64]ssa.Value{}
+	for _, r := range *al.Referrers() {
+		ia, ok := r.(*ssa.IndexAddr)
+		if !ok {
+			continue
+		}
+		ic, ok := ia.Index.(*ssa.Const)
+		if !ok || ia.Referrers() == nil {
+			return Term{}, false
+		}
+		for _, rr := range *ia.Referrers() {
+			if sto, ok := rr.(*ssa.Store); ok && sto.Addr == ia {
+				mi, ok := sto.Val.(*ssa.MakeInterface)
+				if !ok {
+					return Term{}, false
+				}
+				argv[ic.Int64()] = mi.X
+			}
+		}
+	}
+	fr := st.Frames[frID]
+	var parts []Term
+	lit := ""
+	flush := func() {
+		if lit != "" {
+			parts = append(parts, ex.bytesLit(lit))
+			lit = ""
+		}
+	}
+	n := int64(0)
+	for i := 0; i < len(format); i++ {
+		if format[i] != '%' {
+			lit += string(format[i])
+			continue
+		}
+		if i+1 >= len(format) {
+			return Term{}, false
+		}
+		i++
+		switch format[i] {
+		case '%':
+			lit += "%"
+		case 's':
+			x, ok := argv[n]
+			n++
+			if !ok {
+				return Term{}, false
+			}
+			flush()
+			switch kindOf(x.Type()) {
+			case KString:
+				t, ok := ex.val(st, fr, x).(Term)
+				if !ok || t.Sort != SBytes {
+					return Term{}, false
+				}
+				parts = append(parts, t)
+			case KSlice:
+				if !isByteSlice(x.Type()) {
+					return Term{}, false
+				}
+				sv, ok := ex.val(st, fr, x).(SliceV)
+				if !ok {
+					return Term{}, false
+				}
+				parts = append(parts, ex.content(st, sv))
+			default:
+				return Term{}, false
+			}
+		default:
+			return Term{}, false
+		}
+	}
+	flush()
+	if n != int64(len(argv)) {
+		return Term{}, false
+	}
+	if len(parts) == 0 {
+		return ex.bytesLit(""), true
+	}
+	r := parts[0]
+	for _, p := range parts[1:] {
+		r = App(SBytes, "bconcat", r, p)
+	}
+	return r, true
 }
